@@ -12,8 +12,15 @@ class Broken(Exception):
     """the check itself could not do its job (never a verdict about the code)"""
 
 
+_T0 = time.time()
+
+
 def log(*a):
-    print(*a, flush=True)
+    # lines the interface prescribes (VIOLATION / KNOWN-FINDING) start in column 0; progress lines carry the elapsed time
+    if a and isinstance(a[0], str) and a[0].startswith("  "):
+        print("  [%4ds]" % (time.time() - _T0) + a[0][1:], *a[1:], flush=True)
+    else:
+        print(*a, flush=True)
 
 
 # ------------------------------------------------------------------------------------------
